@@ -1,4 +1,4 @@
-\* C01: the oracle on an ideal direct connection, quick instance (<= 2 writes per side, sizes 0..2)
+\* C01: the oracle on an ideal direct connection, quick instance (<= 2 writes per side, sizes 0..2; the back-pressure programs)
 SPECIFICATION Spec
 CONSTANTS
   MaxW = 2
@@ -7,4 +7,4 @@ CONSTANTS
   Proto = "tcp"
   Gen = FALSE
   MaxK = 1
-INVARIANTS Inv_Prefix Inv_Complete Inv_HalfClose Inv_Closed Inv_Other
+INVARIANTS Inv_Prefix Inv_Complete Inv_HalfClose Inv_Closed Inv_Independent Inv_Other
